@@ -97,14 +97,17 @@ class Signature(object):
         # Compute the public key
         R1 = ellipticcurve.PointJacobi(curve, x, y, 1, n)
         Q1 = numbertheory.inverse_mod(r, n) * (s * R1 + (-e % n) * generator)
-        Pk1 = Public_key(generator, Q1)
 
         # And the second solution
-        R2 = ellipticcurve.PointJacobi(curve, x, -y, 1, n)
+        R2 = ellipticcurve.PointJacobi(curve, x, -y % curve.p(), 1, n)
         Q2 = numbertheory.inverse_mod(r, n) * (s * R2 + (-e % n) * generator)
-        Pk2 = Public_key(generator, Q2)
 
-        return [Pk1, Pk2]
+        # a candidate at infinity is not a public key
+        return [
+            Public_key(generator, Q)
+            for Q in (Q1, Q2)
+            if Q != ellipticcurve.INFINITY
+        ]
 
 
 class Public_key(object):
